@@ -224,7 +224,7 @@ func (self *BinaryConv) unmarshalSingular(ctx context.Context, resp http.Respons
 		message := (*fd).Message()
 		comma := false
 		start := p.Read
-		if l < 0 || start+l > len(p.Buf) {
+		if l < 0 || l > len(p.Buf)-start {
 			return wrapError(meta.ErrRead, "invalid message length", nil)
 		}
 		// bound the buffer by the end of this message: a trailing repeated/map field must not
